@@ -50,7 +50,8 @@ async def settle(n=4):
         await asyncio.sleep(0)
 
 
-def run_sim(build, drive, *, start=1000.0, drain=0.0, setup=None, storage=None, debug=False):
+def run_sim(build, drive, *, start=1000.0, drain=0.0, setup=None, storage=None, debug=False,
+            drain_budget=50000):
     """
     Fresh loop + fresh circuit: build() creates the blocks, then the simulation is started,
     drive(sim, objs) is awaited and the simulation is shut down.
@@ -78,7 +79,8 @@ def run_sim(build, drive, *, start=1000.0, drain=0.0, setup=None, storage=None, 
         await sim.stop()
         return res
 
-    loop, result, exc = vloop.run(main, start=start, drain=drain, setup=setup)
+    loop, result, exc = vloop.run(main, start=start, drain=drain, setup=setup,
+                                  drain_budget=drain_budget)
     out['loop'], out['result'], out['exc'] = loop, result, exc
     edzed.reset_circuit()
     return out
@@ -128,3 +130,23 @@ class Storage(dict):
         if key not in self:
             self[key] = default
         return self[key]
+
+
+class ShelfStorage(Storage):
+    """
+    A storage with the extra methods of a shelve.Shelf: sync() is slow blocking I/O
+    (a few ms of real time), close() ends its life.  Calls are recorded.
+    """
+
+    def __init__(self, init=None, log=None, sync_time=0.01):
+        super().__init__(init, log)
+        self.sync_time = sync_time
+        self.calls = []
+
+    def sync(self):
+        import time
+        self.calls.append('sync')
+        time.sleep(self.sync_time)
+
+    def close(self):
+        self.calls.append('close')
